@@ -304,6 +304,15 @@ func (g *fleetGen) quantiles(n *fgNode, count int) []engine.F64 {
 func (g *fleetGen) weight() float64 {
 	r := g.r
 	switch g.regime {
+	case "arb": // arbitrary non-negative float64 weights (C09)
+		switch r.Pick(5, 3, 2) {
+		case 0:
+			return r.Float64() * 100
+		case 1:
+			return r.LogUniform(1e-9, 1e9)
+		default:
+			return float64(r.Range(1, 9)) / 3
+		}
 	case "tiny": // total weight below one is reachable
 		return float64(r.Range(1, 16)) * math.Ldexp(1, -r.Range(4, 10))
 	case "wide": // dyadic in (0, 2^20]
